@@ -443,6 +443,115 @@ class BucketClose(Spec):
         return [("canary", z3.BoolVal("close" not in self._remote))]
 
 
+class AllocationFor(Spec):
+    """Tahoe2ServerSelector._allocation_for(tracker): the shares the current plan gives this server, minus any share a
+    different tracker already holds a bucket for -- so no share number is ever allocated on two servers, whatever the
+    re-computed plan says (CHKUploader.set_shareholders relies on it)"""
+    file = UP
+    qualname = "Tahoe2ServerSelector._allocation_for"
+    cross_check = 0
+    raises = ()
+    canary_case = {"plan": 1, "held": 1}
+    # plans: share -> server id (None = nowhere); me = b"A"
+    PLANS = [{0: b"A", 1: b"B", 2: None}, {0: b"A", 1: b"A", 2: b"B"}, {0: b"B", 1: b"B"}, {0: b"A", 1: b"A", 2: b"A"}]
+    HELD = [{}, {b"B": (0,)}, {b"B": (0, 1)}, {b"A": (0,)}, {b"A": (1,), b"C": (2,)}]      # buckets already accepted, per server
+
+    def inputs(self):
+        return {"plan": ChoiceK([0, 1, 2, 3]), "held": ChoiceK([0, 1, 2, 3, 4])}
+
+    def all_cases(self):
+        return [{"plan": p, "held": h} for p in range(4) for h in range(5)]
+
+    def config(self):
+        return {"overrides": {"PrefixingLogMixin.log": noop}}
+
+    def run(self, I, a):
+        M = self.module()
+        plan, held = self.PLANS[a["plan"]], self.HELD[a["held"]]
+        trackers = {}
+        for sid in (b"A", b"B", b"C"):
+            t = SObj(M.ServerTracker, {"buckets": dict((sh, "writer") for sh in held.get(sid, ()))}, name="tracker" + sid.decode())
+            t.fields["get_serverid"] = stub("x", f=(lambda I_, a_, k_, sid=sid: sid)).fields["f"]
+            t.fields["get_name"] = stub("x", f=(lambda I_, a_, k_, sid=sid: sid)).fields["f"]
+            trackers[sid] = t
+        use = set()
+        for sid in held:
+            use.add(trackers[sid])
+        sel = SObj(M.Tahoe2ServerSelector, {"use_trackers": use, "_share_placements": dict(plan), "homeless_shares": set([0, 1, 2]), "_status": None})
+        return I.call_value(self.target(I), [sel, trackers[b"A"]], {})
+
+    def ensures(self, I, a, out):
+        plan, held = self.PLANS[a["plan"]], self.HELD[a["held"]]
+        elsewhere = set(sh for sid, shs in held.items() if sid != b"A" for sh in shs)
+        want = set(sh for sh, sid in plan.items() if sid == b"A") - elsewhere
+        got = set(out.value) if out.kind == "return" else None
+        return [("no-share-another-server-already-accepted-is-asked-for-again", z3.BoolVal(got is not None and not (got & elsewhere))),
+                ("otherwise-exactly-the-planned-shares-of-this-server", z3.BoolVal(got == want))]
+
+    def canary(self, I, a, out):
+        return [("canary", z3.BoolVal(0 in set(out.value)))]
+
+
+class PlacementsKeepAllocated(Spec):
+    """PeerSelector.get_share_placements(allocated): the planner is given the pre-existing shares merged with the shares
+    servers already accepted during this upload, and the record of pre-existing shares itself is left untouched (frame:
+    get_sharemap_of_preexisting_shares() must keep meaning 'found', never 'being written')"""
+    file = UP
+    qualname = "PeerSelector.get_share_placements"
+    cross_check = 0
+    raises = ()
+    canary_case = {"existing": 1, "allocated": 2}
+    EXISTING = [{}, {b"A": {0}}, {b"A": {0, 1}, b"R": {2}}]
+    ALLOCATED = [None, {}, {b"A": {3}}, {b"B": {1, 4}, b"A": {0}}]
+
+    def inputs(self):
+        return {"existing": ChoiceK([0, 1, 2]), "allocated": ChoiceK([0, 1, 2, 3])}
+
+    def all_cases(self):
+        return [{"existing": e, "allocated": al} for e in range(3) for al in range(4)]
+
+    def config(self):
+        me = self
+
+        def placement(I, a, kw):
+            me._calls.append(tuple(a))
+            return {0: b"A"}
+        return {"overrides": {"happiness_upload.share_placement": placement, "happiness_upload.calculate_happiness": lambda I, a, kw: 1}}
+
+    def run(self, I, a):
+        import copy
+        self._calls = []
+        ex = copy.deepcopy(self.EXISTING[a["existing"]])
+        self._ex = ex
+        ps = SObj(self.module().PeerSelector, {"total_shares": 5, "peers": {b"A", b"B"}, "readonly_peers": {b"R"}, "existing_shares": ex, "needed_shares": 2, "min_happiness": 2, "num_segments": 1})
+        al = copy.deepcopy(self.ALLOCATED[a["allocated"]])
+        args = [ps] if al is None else [ps, al]
+        out = Outcome("return", I.call_value(self.target(I), args, {}))
+        out.post = {"ps": ps}
+        return out
+
+    def ensures(self, I, a, out):
+        ex, al = self.EXISTING[a["existing"]], self.ALLOCATED[a["allocated"]] or {}
+        merged = dict((p_, set(v)) for p_, v in ex.items())
+        for p_, v in al.items():
+            merged.setdefault(p_, set()).update(v)
+
+        def norm(d):
+            return dict((unwrap(k_), set(unwrap(x) for x in v)) for k_, v in dict(d).items() if v)
+
+        def unwrap(x):
+            return getattr(x, "v", x)
+        ok = len(self._calls) == 1
+        given = norm(self._calls[0][3]) if ok else None
+        return [("the-planner-is-called-once-over-all-share-numbers", z3.BoolVal(ok and set(self._calls[0][2]) == set(range(5)))),
+                ("it-sees-pre-existing-and-already-accepted-shares", z3.BoolVal(ok and given == norm(merged))),
+                ("the-record-of-pre-existing-shares-is-unchanged", z3.BoolVal(norm(out.post["ps"].fields["existing_shares"]) == norm(ex))),
+                ("the-plan-is-returned", z3.BoolVal(out.kind == "return" and dict(out.value) == {0: b"A"}))]
+
+    def canary(self, I, a, out):
+        return [("canary", z3.BoolVal(len(self._calls) == 0))]
+
+
 def extra_checks(rep, tier):
     from contracts import grid_upload
     grid_upload.grid_check(rep, tier, "C06")
@@ -455,4 +564,4 @@ def extra_checks(rep, tier):
 
 
 def contracts(tier):
-    return [SelectorDecision(), SelectorFailed(), LocateAllShareholders(), EncoderErrorWiring(), RemoveShareholder(), EncryptedDone(), BucketClose()]
+    return [SelectorDecision(), SelectorFailed(), LocateAllShareholders(), EncoderErrorWiring(), RemoveShareholder(), EncryptedDone(), BucketClose(), AllocationFor(), PlacementsKeepAllocated()]
